@@ -57,7 +57,24 @@ IsEscaped(t) == Len(t) > 0 /\ SubSeq(t, 1, 1) = "\\"
 Prod == [
   source |-> << A(<<N("description")>>), G(<<N("description"), N("source")>>) >>,
   description |-> << A(<<N("module_ansi")>>), A(<<N("module_nonansi")>>), A(<<N("interface_decl")>>),
-                     A(<<N("program_decl")>>), A(<<N("package_decl")>>), A(<<N("class_decl")>>) >>,
+                     A(<<N("program_decl")>>), A(<<N("package_decl")>>), A(<<N("class_decl")>>), A(<<N("full_form")>>) >>,
+  \* design elements written with EVERY optional part (lifetime, imports, parameter and port lists, time units, end
+  \* labels, wildcard ports ...): these are the nodes with 8 to 11 children, whose children must come out in source order
+  full_form |-> << AT(<<K("module"), I, S("("), S(".*"), S(")"), S(";"), N("timeunits"), N("module_items"), K("endmodule"), S(":"), N("ident")>>, "ModuleDeclarationWildcard"),
+                   AT(<<K("macromodule"), K("automatic"), I, S("("), S(".*"), S(")"), S(";"), N("timeunits"), N("net_decl"), K("endmodule"), S(":"), N("ident")>>, "ModuleDeclarationWildcard"),
+                   AT(<<K("interface"), K("static"), I, S("("), S(".*"), S(")"), S(";"), N("timeunits"), N("var_decl"), K("endinterface"), S(":"), N("ident")>>, "InterfaceDeclarationWildcard"),
+                   AT(<<K("program"), I, S("("), S(".*"), S(")"), S(";"), N("timeunits"), N("initial"), K("endprogram"), S(":"), N("ident")>>, "ProgramDeclarationWildcard"),
+                   AT(<<K("module"), K("automatic"), I, N("import_decl"), N("opt_param_ports"), N("opt_ansi_ports"), S(";"), N("timeunits"), N("module_items"), K("endmodule"), S(":"), N("ident")>>, "ModuleDeclarationAnsi"),
+                   AT(<<K("module"), K("static"), I, N("import_decl"), S("#"), S("("), N("param_port"), S(")"), S("("), N("port_ref"), S(","), N("port_ref"), S(")"), S(";"),
+                        N("timeunits"), N("port_decl_in"), N("port_decl_out"), K("endmodule"), S(":"), N("ident")>>, "ModuleDeclarationNonansi"),
+                   AT(<<K("package"), K("automatic"), I, S(";"), N("timeunits"), N("pkg_items"), K("endpackage"), S(":"), N("ident")>>, "PackageDeclaration"),
+                   AT(<<K("virtual"), K("class"), K("automatic"), I, S("#"), S("("), N("param_port"), S(")"), K("extends"), N("class_ref"), S("("), N("const_expr"), S(")"),
+                        K("implements"), N("class_ref"), S(","), N("class_ref"), S(";"), N("class_items"), N("ctor"), K("endclass"), S(":"), N("ident")>>, "ClassDeclaration"),
+                   AT(<<K("interface"), K("class"), I, S("#"), S("("), N("param_port"), S(")"), K("extends"), N("class_ref"), S(","), N("class_ref"), S(";"),
+                        K("pure"), K("virtual"), K("function"), K("int"), N("ident"), S("("), S(")"), S(";"), K("endclass"), S(":"), N("ident")>>, "InterfaceClassDeclaration") >>,
+  timeunits |-> << A(<<K("timeunit"), L("TimeLiteral"), S(";"), K("timeprecision"), L("TimeLiteral"), S(";")>>), A(<<K("timeunit"), L("TimeLiteral"), S("/"), L("TimeLiteral"), S(";")>>) >>,
+  ctor |-> << A(<<K("function"), K("new"), S("("), N("tf_ports"), S(")"), S(";"), N("var_decl"), K("super"), S("."), K("new"), S("("), N("expr"), S(")"), S(";"),
+                  N("nonblocking"), K("endfunction"), S(":"), K("new")>>) >>,
 
   \* ---- modules ----
   module_ansi |-> << AT(<<K("module"), I, N("opt_param_ports"), N("opt_ansi_ports"), S(";"), N("module_items"), K("endmodule")>>, "ModuleDeclarationAnsi") >>,
@@ -82,7 +99,22 @@ Prod == [
   module_item |-> << A(<<N("net_decl")>>), A(<<N("var_decl")>>), A(<<N("typedef_decl")>>), A(<<N("cont_assign")>>),
                      A(<<N("always")>>), A(<<N("initial")>>), A(<<N("final")>>), A(<<N("inst")>>),
                      A(<<N("genvar_decl")>>), A(<<N("generate_region")>>), A(<<N("gen_if")>>), A(<<N("gen_for")>>), A(<<N("gen_case")>>),
-                     A(<<N("function_decl")>>), A(<<N("task_decl")>>), A(<<N("param_stmt")>>), A(<<N("import_decl")>>) >>,
+                     A(<<N("function_decl")>>), A(<<N("task_decl")>>), A(<<N("param_stmt")>>), A(<<N("import_decl")>>), A(<<N("full_sub")>>),
+                     A(<<N("assertion_decl")>>) >>,
+  \* property / sequence declarations with ports, local variables, end labels; concurrent assertions; clocking; covergroup
+  avar_decl |-> << AT(<<K("logic"), I, S(";")>>, "VariableDeclAssignment"), AT(<<K("int"), I, S("="), L("DecimalNumber"), S(";")>>, "VariableDeclAssignment") >>,
+  assertion_decl |-> << A(<<K("property"), N("ident"), S("("), N("ident"), S(","), N("ident"), S(")"), S(";"), N("avar_decl"),
+                            S("@"), S("("), K("posedge"), N("ident"), S(")"), N("ident"), S("|->"), S("##"), L("DecimalNumber"), N("ident"), S(";"), K("endproperty"), S(":"), N("ident")>>),
+                        A(<<K("sequence"), N("ident"), S("("), N("ident"), S(")"), S(";"), N("avar_decl"),
+                            S("@"), S("("), K("posedge"), N("ident"), S(")"), N("ident"), S("##"), L("DecimalNumber"), N("ident"), S(";"), K("endsequence"), S(":"), N("ident")>>),
+                        A(<<N("ident"), S(":"), K("assert"), K("property"), S("("), S("@"), S("("), K("posedge"), N("ident"), S(")"), K("disable"), K("iff"), S("("), N("ident"), S(")"),
+                            N("ident"), S("|=>"), N("ident"), S(")"), N("systf_call"), K("else"), N("systf_call")>>),
+                        A(<<K("cover"), K("property"), S("("), S("@"), S("("), K("posedge"), N("ident"), S(")"), N("ident"), S("##"), S("["), L("DecimalNumber"), S(":"), L("DecimalNumber"), S("]"), N("ident"), S(")"), S(";")>>),
+                        A(<<K("default"), K("clocking"), N("ident"), S("@"), S("("), K("posedge"), N("ident"), S(")"), S(";"), K("default"), K("input"), S("#"), S("1"), K("output"), S("#"), S("2"), S(";"),
+                            K("input"), N("ident"), S(","), N("ident"), S(";"), K("endclocking"), S(":"), N("ident")>>),
+                        A(<<K("covergroup"), N("ident"), S("("), K("input"), K("int"), N("ident"), S(")"), S("@"), S("("), K("posedge"), N("ident"), S(")"), S(";"),
+                            N("ident"), S(":"), K("coverpoint"), N("ident"), S("{"), K("bins"), N("ident"), S("="), S("{"), S("["), L("DecimalNumber"), S(":"), L("DecimalNumber"), S("]"), S("}"), S(";"), S("}"),
+                            K("endgroup"), S(":"), N("ident")>>) >>,
 
   \* ---- declarations ----
   net_decl |-> << AT(<<K("wire"), I, S(";")>>, "NetDeclAssignment"), AT(<<K("wire")>> \o Rng \o <<I, S(";")>>, "NetDeclAssignment"),
@@ -248,6 +280,10 @@ Prod == [
   function_decl |-> << AT(<<K("function"), K("int"), I, S("("), N("tf_ports"), S(")"), S(";"), N("fstmts"), K("endfunction")>>, "FunctionDeclaration"),
                        AT(<<K("function"), K("automatic"), K("logic")>> \o Rng \o <<I, S("("), N("tf_ports"), S(")"), S(";"), N("fstmts"), K("endfunction")>>, "FunctionDeclaration"),
                        AT(<<K("function"), K("void"), I, S("("), S(")"), S(";"), N("fstmts"), K("endfunction")>>, "FunctionDeclaration") >>,
+  full_sub |-> << AT(<<K("function"), K("automatic"), K("int"), I, S("("), N("tf_ports"), S(")"), S(";"), N("var_decl"), N("fstmts"), K("endfunction"), S(":"), N("ident")>>, "FunctionDeclaration"),
+                  AT(<<K("function"), K("static"), K("void"), I, S(";"), K("input"), K("int"), N("ident"), S(";"), N("var_decl"), N("fstmts"), K("endfunction"), S(":"), N("ident")>>, "FunctionDeclaration"),
+                  AT(<<K("task"), K("automatic"), I, S("("), N("tf_ports"), S(")"), S(";"), N("var_decl"), N("fstmts"), K("endtask"), S(":"), N("ident")>>, "TaskDeclaration"),
+                  AT(<<K("task"), K("static"), I, S(";"), K("input"), K("int"), N("ident"), S(";"), N("var_decl"), N("fstmts"), K("endtask"), S(":"), N("ident")>>, "TaskDeclaration") >>,
   task_decl |-> << AT(<<K("task"), I, S(";"), N("fstmts"), K("endtask")>>, "TaskDeclaration"),
                    AT(<<K("task"), K("automatic"), I, S("("), N("tf_ports"), S(")"), S(";"), N("fstmts"), K("endtask")>>, "TaskDeclaration") >>,
   tf_ports |-> << A(<<K("input"), K("int"), N("ident")>>), A(<<K("input"), K("int"), N("ident"), S(","), K("output"), K("logic"), N("range"), N("ident")>>) >>,
